@@ -30,6 +30,7 @@ func init() {
 			{ID: "C18-R2", Title: "one path function for all operations", Decides: "set/get/delete/list address the same file", Floor: 4, Run: c18r2},
 			{ID: "C18-R3", Title: "entity keys: full hex of the name + the listed suffix, used by all operations", Decides: "holds for every entity name; listing returns exactly the live entries", Floor: 6, Run: c18r3},
 			{ID: "C18-R4", Title: "errors surface; successful lookups read the storage", Decides: "not-found after delete; no stale entries", Floor: 4, Run: c18r4},
+			{ID: "C18-R5", Title: "exact listing filter; only Set/Delete change files; writes and deletes are unconditional; opening is read-only", Decides: "listing returns exactly the live entries; values survive re-opening; the last value set is what is read", Floor: 6, Run: c18r5},
 		},
 	})
 	register(&core.Property{
@@ -436,6 +437,7 @@ func fieldIsName(f *ssa.Field) bool {
 
 func c18r4(c *core.Ctx) {
 	p := c.P
+	databaseImplsReadStorage(c)
 	// lookups read the storage on every successful path
 	for _, spec := range []struct{ rel, fn, typ string }{{"db", "(*database).entityForKey", tDatabase}, {"db", "(*database).EntityWithName", tDatabase}} {
 		f := p.Func(spec.rel, spec.fn)
